@@ -23,11 +23,11 @@ func init() {
 		Doc: "every non-matching exit of the option matcher yields the env flag with the vector unchanged; a true verdict carries a matched sub-call's vector", Run: mat4})
 	register(&Rule{ID: "MAT-5", Props: []string{"C12"}, Floor: 2,
 		Doc: "consuming an occurrence never consults the env flag", Run: mat5})
-	register(&Rule{ID: "MAT-6", Props: []string{"C12", "C03", "C10"}, Floor: 1,
+	register(&Rule{ID: "MAT-6", Props: []string{"C12", "C03", "C10", "C01", "C11"}, Floor: 1,
 		Doc: "the group matcher excludes an env-backed option only after a match that recorded no value for it", Run: mat6})
 	register(&Rule{ID: "MAT-7", Props: []string{"C10", "C11", "C02", "C01"}, Floor: 6,
 		Doc: "a foreign occurrence is skipped over exactly the tokens an own occurrence of that form consumes; an own match reports the number of tokens it dropped", Run: mat7})
-	register(&Rule{ID: "MAT-8", Props: []string{"C10", "C19", "C01", "C02", "C13"}, Floor: 3,
+	register(&Rule{ID: "MAT-8", Props: []string{"C10", "C19", "C01", "C02", "C13", "C11"}, Floor: 3,
 		Doc: "sibling guards: own option only; empty '=' value is no match; separate value starting with '-' is no match; a flag (IsBool of the looked-up option) records \"true\"", Run: mat8})
 	register(&Rule{ID: "MAT-11", Props: []string{"C11", "C01"}, Floor: 4,
 		Doc: "group retry: (false, input) if the first try fails, else try again on each new vector until a try fails, returning the last vector", Run: mat11})
@@ -735,6 +735,40 @@ func mat6(c *Ctx) {
 				okB, _ := noBreak(h)
 				c.Check(okB, Q(fn)+":every-option-offered", mu.Pos(), "every option of the group is offered the arguments; an excluded one is passed over alone",
 					"the loop over the group's options can stop early: an excluded (env-backed) option would keep the options behind it from being matched")
+				// the group gives up only when there is nothing to offer (empty vector, options rejected
+				// after `--`) or when every option of the group has declined: no other way to `false`
+				_, _, ex := loopBody(h)
+				cut := map[ir.Edge]bool{}
+				if ex != nil {
+					cut[ir.Edge{From: h, To: ex}] = true
+				}
+				for _, p := range fn.Params {
+					if isStringSlice(p.Type()) {
+						for _, e := range lenOnlyZeroEdges(fn, p) {
+							cut[e] = true
+						}
+					}
+				}
+				ir.Instrs(fn, func(in2 ssa.Instruction) {
+					if v, ok := in2.(ssa.Value); ok {
+						if bb, ff, isF := ir.FieldLoad(v); isF && ff == "RejectOptions" && c.isNamed(bb.Type(), "internal/matcher", "ParseContext") {
+							for _, e := range ir.EdgesWhere(fn, v, true) {
+								cut[ir.Edge{From: e.From, To: e.To}] = true
+							}
+						}
+					}
+				})
+				reach := ir.Reach(fn.Blocks[0], nil, cut)
+				okG, whyG := ex != nil, "loop shape not recognised"
+				for _, r := range ir.ReturnWays(fn) {
+					if v, isC := ir.ConstBool(r.Results[0]); isC && v {
+						continue
+					}
+					if r.ReachableUnder(reach, cut) {
+						okG, whyG = false, fmt.Sprintf("the group declines at %s although the vector is not empty, options are not rejected and its options have not all been offered the arguments: an occurrence of one of its options behind another option is not found", c.P.Pos(r.Pos()))
+					}
+				}
+				c.Check(okG, Q(fn)+":gives-up", fn.Pos(), "the group declines only on an empty vector, after `--`, or when each of its options has declined", whyG)
 			}
 		})
 	}
@@ -1585,6 +1619,9 @@ func mat12(c *Ctx) {
 	}
 	for _, pkg := range []string{"internal/matcher", "internal/fsm"} {
 		for _, fn := range c.pkgFuncsDeep(pkg) {
+			if fn.Synthetic == "" {
+				c.stringBounds(fn)
+			}
 			if !swept[fn] && fn.Synthetic == "" {
 				swept[fn] = true
 				c.vectorBounds(fn)
